@@ -25,9 +25,9 @@ theories/Pipe/Drop.vos theories/Pipe/Drop.vok theories/Pipe/Drop.required_vos: t
 theories/Pipe/Scenarios.vo theories/Pipe/Scenarios.glob theories/Pipe/Scenarios.v.beautified theories/Pipe/Scenarios.required_vo: theories/Pipe/Scenarios.v theories/Pipe/Model.vo
 theories/Pipe/Scenarios.vio: theories/Pipe/Scenarios.v theories/Pipe/Model.vio
 theories/Pipe/Scenarios.vos theories/Pipe/Scenarios.vok theories/Pipe/Scenarios.required_vos: theories/Pipe/Scenarios.v theories/Pipe/Model.vos
-theories/Pipe/Refute.vo theories/Pipe/Refute.glob theories/Pipe/Refute.v.beautified theories/Pipe/Refute.required_vo: theories/Pipe/Refute.v theories/Pipe/Model.vo theories/Pipe/Base.vo theories/Pipe/Drop.vo theories/Pipe/Scenarios.vo
-theories/Pipe/Refute.vio: theories/Pipe/Refute.v theories/Pipe/Model.vio theories/Pipe/Base.vio theories/Pipe/Drop.vio theories/Pipe/Scenarios.vio
-theories/Pipe/Refute.vos theories/Pipe/Refute.vok theories/Pipe/Refute.required_vos: theories/Pipe/Refute.v theories/Pipe/Model.vos theories/Pipe/Base.vos theories/Pipe/Drop.vos theories/Pipe/Scenarios.vos
+theories/Pipe/Refute.vo theories/Pipe/Refute.glob theories/Pipe/Refute.v.beautified theories/Pipe/Refute.required_vo: theories/Pipe/Refute.v theories/Pipe/Model.vo theories/Pipe/Base.vo theories/Pipe/Notify.vo theories/Pipe/Terminal.vo theories/Pipe/Drop.vo theories/Pipe/Scenarios.vo
+theories/Pipe/Refute.vio: theories/Pipe/Refute.v theories/Pipe/Model.vio theories/Pipe/Base.vio theories/Pipe/Notify.vio theories/Pipe/Terminal.vio theories/Pipe/Drop.vio theories/Pipe/Scenarios.vio
+theories/Pipe/Refute.vos theories/Pipe/Refute.vok theories/Pipe/Refute.required_vos: theories/Pipe/Refute.v theories/Pipe/Model.vos theories/Pipe/Base.vos theories/Pipe/Notify.vos theories/Pipe/Terminal.vos theories/Pipe/Drop.vos theories/Pipe/Scenarios.vos
 theories/Pipe/PropsC12.vo theories/Pipe/PropsC12.glob theories/Pipe/PropsC12.v.beautified theories/Pipe/PropsC12.required_vo: theories/Pipe/PropsC12.v theories/Pipe/Model.vo theories/Pipe/Base.vo theories/Pipe/Data.vo theories/Pipe/Notify.vo theories/Pipe/Token.vo theories/Pipe/Closed.vo theories/Pipe/Terminal.vo theories/Pipe/Scenarios.vo theories/Pipe/Refute.vo
 theories/Pipe/PropsC12.vio: theories/Pipe/PropsC12.v theories/Pipe/Model.vio theories/Pipe/Base.vio theories/Pipe/Data.vio theories/Pipe/Notify.vio theories/Pipe/Token.vio theories/Pipe/Closed.vio theories/Pipe/Terminal.vio theories/Pipe/Scenarios.vio theories/Pipe/Refute.vio
 theories/Pipe/PropsC12.vos theories/Pipe/PropsC12.vok theories/Pipe/PropsC12.required_vos: theories/Pipe/PropsC12.v theories/Pipe/Model.vos theories/Pipe/Base.vos theories/Pipe/Data.vos theories/Pipe/Notify.vos theories/Pipe/Token.vos theories/Pipe/Closed.vos theories/Pipe/Terminal.vos theories/Pipe/Scenarios.vos theories/Pipe/Refute.vos
